@@ -58,6 +58,39 @@ pub fn crash_history(k: u8, power_loss: bool) {
     std::mem::forget(r);
 }
 
+/// A client whose import was not acknowledged retries it: k-1 completed imports, the k-th dies at a symbolic
+/// call, restart (either crash model), the SAME import is persisted again and acknowledged, restart again
+/// (both crash models for this second restart are covered by `power_loss2`): the retried import is restored.
+pub fn crash_then_retry(k: u8, power_loss: bool) {
+    simfs::reset();
+    let mut i: u8 = 1;
+    while i < k {
+        let r = persist_snapshot("d", &[i]);
+        assert!(r.is_ok(), "C14 persist failed without any fault");
+        std::mem::forget(r);
+        i += 1;
+    }
+    let crash_at: usize = kani::any();
+    kani::assume(crash_at >= 1 && crash_at <= MAXCALLS);
+    simfs::arm_crash(crash_at);
+    let r = persist_snapshot("d", &[k]);
+    std::mem::forget(r);
+    let keep: [bool; 5] = kani::any();
+    let rot: [bool; 12] = kani::any();
+    simfs::reboot(power_loss, keep, rot);
+    // the retry, with no fault
+    let r2 = persist_snapshot("d", &[k]);
+    assert!(r2.is_ok(), "C14 retrying an import after a crash failed");
+    std::mem::forget(r2);
+    let power_loss2: bool = kani::any();
+    let keep2: [bool; 5] = kani::any();
+    let rot2: [bool; 12] = kani::any();
+    simfs::reboot(power_loss2, keep2, rot2);
+    let (err, got) = restore_outcome();
+    assert!(!err && got == Some(k), "C14 an acknowledged (retried) import is not what a restart restores");
+    vk_cover!(true, "reach");
+}
+
 /// clean restarts: after each of k acknowledged imports a restart restores that import.
 pub fn clean_history(k: u8) {
     simfs::reset();
